@@ -33,7 +33,9 @@ RULE = ("random plate sets: 1-12 plates of unequal sizes 1..40 (single plate, si
         "plate set of the same dense shape but other raggedness/values/distances (exposes buffers, masks or matrices kept across "
         "chunks or calls), and in EVERY case two further scorer objects are first used with MORE resp. FEWER posterior samples and another "
         "distance matrix (budget covering both C(n,3) or only the smaller), then must reproduce the direct estimator and a fresh scorer's result; a third of the cases passes read-only, non-contiguous input arrays; every input is compared with a pristine copy "
-        "afterwards and the kernel is called twice on the same dense arrays; plus the scorer driven through real "
+        "afterwards and the kernel is called twice on the same dense arrays; plus, in every run, n_thetas 34, 36, 40 (C(n,3) = 5984..9880 > the default budget 5000) on tiny plates: every entry point "
+        "(kernel, homoscedastic, heteroscedastic, scorer with max_chunk 50 and 1/2) with budgets C, C+1, 20000 (direct estimator, seed independence, all triples gathered) "
+        "and sub-sampling budgets 50, 777, 6000 (number of triples gathered = min(C, budget)); plus the scorer driven through real "
         "Screen/Plate/ThetaHolder/ChunkedDistanceMatrix objects. Non-trivial: >= 2 plates of different sizes and some triple with positive distance.")
 
 RTOL = 1e-9
@@ -534,6 +536,129 @@ def eval_case(case, want_tie=True):
     return fails, tie, info
 
 
+class RecArr(np.ndarray):
+    """distance matrix that records the integer index arrays it is gathered with (the triples a kernel invocation really uses)"""
+
+    def __new__(cls, arr, log):
+        obj = np.asarray(arr).view(cls)
+        obj.log = log
+        return obj
+
+    def __array_finalize__(self, obj):
+        self.log = getattr(obj, "log", None)
+
+    def __getitem__(self, key):
+        if self.log is not None and isinstance(key, tuple) and len(key) == 2 and all(isinstance(x, np.ndarray) and x.dtype.kind in "iu" for x in key):
+            self.log.append((np.array(key[0], dtype=np.int64), np.array(key[1], dtype=np.int64)))
+        return np.asarray(super().__getitem__(key))
+
+
+def used_triples(log):
+    """per kernel invocation (three gathers (idx1,idx2), (idx2,idx3), (idx1,idx3) each) the list of triples; None if unobservable"""
+    if not log or len(log) % 3:
+        return None
+    out = []
+    for s_ in range(0, len(log), 3):
+        (a1, b1), (a2, b2), (a3, b3) = log[s_:s_ + 3]
+        if not (np.array_equal(a1, a3) and np.array_equal(b1, a2) and np.array_equal(b2, b3)):
+            return None
+        out.append([(int(i), int(j), int(l)) for i, j, l in zip(a1, b1, b2)])
+    return out
+
+
+def bigtheta_case(subseed, n, want_tie=True):
+    """n_thetas in {34, 36, 40}: C(n,3) = 5984, 7140, 9880 lies ABOVE the default budget 5000 of every entry point, so a budget
+    argument that is dropped somewhere on the way to the kernel (and silently replaced by the default) shows.  Tiny plates.
+    Exhaustive budgets C, C+1, 20000 for every entry point: equals the direct estimator over all triples, entry points agree,
+    independent of the seed.  Sub-sampling budgets 50, 777, 6000: the number of triples really gathered is min(C, budget)."""
+    from batchie.scoring import gaussian_dbal as gd
+    r = random.Random(subseed)
+    g = np.random.default_rng(r.randrange(2 ** 63))
+    C = math.comb(n, 3)
+    P = r.choice([1, 2, 3])
+    sizes = [r.choice([1, 1, 2, 3]) for _ in range(P)]
+    U = np.triu(g.uniform(0.0, 2.0, size=(n, n)) * (g.uniform(size=(n, n)) > r.choice([0.0, 0.3])), 1)
+    D = U + U.T
+    hv = 10.0 ** g.uniform(-1, 1, size=(P, n))                      # homoscedastic: one variance per (plate, theta)
+    means = [g.normal(size=(n, L)) * r.choice([0.3, 1.0]) for L in sizes]
+    variances = [hv[k][:, None] * np.ones((n, L)) for k, L in enumerate(sizes)]
+    all_triples = [(a, b, cc) for a in range(n) for b in range(a) for cc in range(b)]
+    Dl = D.tolist()
+    ref = [ref_score(ref_logweights(Dl, 1.0, m.tolist(), v.tolist(), all_triples)) for m, v in zip(means, variances)]
+    fails, tie = [], []
+    info = dict(n=n, sizes=sizes, C=C)
+    W = max(sizes)
+    pm, pv = pad_dense(means, W, 0.0), pad_dense(variances, W, np.nan)
+    ids = r.sample(range(100), P)
+    plates = {i: StubPlate(m, v) for i, m, v in zip(ids, means, variances)}
+
+    def entry(name, budget, seed, dm):
+        rng = np.random.default_rng(seed)
+        if name == "heteroscedastic":
+            return gd.dbal_fast_gaussian_scoring_heteroscedastic(per_plate_predictions=means, variances=variances, distance_matrix=dm, rng=rng, max_combos=budget)
+        if name == "homoscedastic":
+            return gd.dbal_fast_gaussian_scoring_homoscedastic(per_plate_predictions=means, variances=hv, distance_matrix=dm, rng=rng, max_combos=budget)
+        if name == "vectorised":
+            return gd.dbal_fast_gauss_scoring_vectorized(predictions=pm, variances=pv, distance_matrix=dm, rng=rng, max_combos=budget)
+        mc = int(name.split(":")[1])
+        out = gd.GaussianDBALScorer(max_chunk=mc, max_triples=budget).score(plates=plates, distance_matrix=StubDM(dm), samples=StubThetas(n), rng=rng, progress_bar=False)
+        return [out[i] for i in ids]
+
+    names = ["heteroscedastic", "homoscedastic", "vectorised", "scorer:50", "scorer:%d" % r.choice([1, 2])]
+    for name in names:
+        # ---- exhaustive budgets (all of them above the default 5000) -------------------------------------------------
+        for budget in (C, C + 1, 20000):
+            log = []
+            try:
+                got = [float(x) for x in entry(name, budget, r.randrange(2 ** 32), RecArr(D, log))]
+            except Exception as e:  # noqa
+                fails.append(("%s entry point raises on valid input" % name, {"entry": name, "max_combos": budget, "error": type(e).__name__ + ": " + str(e)[:200]}, "scores", "raises"))
+                continue
+            ts = used_triples(log)
+            n_used = sorted(set(len(t) for t in ts)) if ts else None
+            if not all_close(got, ref):
+                fails.append(("%s score with a budget covering all C(%d,3) = %d triples (above the default 5000) differs from the direct estimator over all triples"
+                              % (name, n, C), {"entry": name, "max_combos": budget, "scores": got, "triples_used_per_kernel_call": n_used}, ref, "budget"))
+                break
+            if ts is not None and any(len(set(t)) != C or len(t) != C for t in ts):
+                fails.append(("%s does not enumerate every triple although the budget covers them" % name,
+                              {"entry": name, "max_combos": budget, "triples_used_per_kernel_call": n_used}, {"triples": C}, "budget"))
+                break
+        # ---- independent of the seed when everything is enumerated -------------------------------------------------------
+        try:
+            a = [float(x) for x in entry(name, 20000, 1, D)]
+            b = [float(x) for x in entry(name, 20000, 2, D)]
+            if not all_close(a, b):
+                fails.append(("%s score depends on the seed although the budget covers all triples" % name, {"entry": name, "seed1": a, "seed2": b}, "equal", "budget"))
+        except Exception:  # noqa
+            pass
+        # ---- sub-sampling budgets that are not the default: the number of triples really gathered -------------------------
+        for budget in (50, 777, 6000):
+            log = []
+            try:
+                entry(name, budget, r.randrange(2 ** 32), RecArr(D, log))
+            except Exception as e:  # noqa
+                fails.append(("%s entry point raises on valid input" % name, {"entry": name, "max_combos": budget, "error": type(e).__name__ + ": " + str(e)[:200]}, "scores", "raises"))
+                continue
+            ts = used_triples(log)
+            if ts is None:
+                info["unobserved"] = info.get("unobserved", 0) + 1
+                continue
+            want = min(C, budget)
+            for t in ts:
+                if len(t) != want or len(set(t)) != len(t) or any(not (n > i > j > l >= 0) for (i, j, l) in t):
+                    fails.append(("%s uses another number of triples than min(C(n,3), budget), or repeated / out-of-range ones" % name,
+                                  {"entry": name, "max_combos": budget, "n_triples": len(t), "distinct": len(set(t))}, {"n_triples": want}, "budget"))
+                    break
+    if want_tie and not fails:
+        rng = RecRng(r.randrange(2 ** 32))
+        het = gd.dbal_fast_gaussian_scoring_heteroscedastic(per_plate_predictions=means, variances=variances, distance_matrix=D, rng=rng, max_combos=C)
+        ts = triples_of(gd, rng.calls, n)
+        if len(ts) == 1:
+            tie.append(("het", "dbal.het %d %s %s %s %s" % (f2b(1.0), enc_mat(Dl), enc_triples(ts[0]), enc_3d(means), enc_3d(variances)), [float(x) for x in het]))
+    return fails, tie, info
+
+
 # ----------------------------------------------------------------------------------------------
 def static_ties(ctx, res, lines, expect, meta):
     """array_split sizes and the ragged-to-dense copy, exact"""
@@ -774,6 +899,21 @@ def run(ctx, res):
             res.sample(dict(case, n=info["n"], sizes=info["sizes"], zero_mode=info["zero_mode"], factor=info["factor"], homoscedastic=info["homo"]))
         res.traces_validated += 1 if tie else 0
 
+    bseeds = ctx.subrng("bigtheta")
+    for rep in range(ctx.scale(1, 4, 2)):
+        for nb in (34, 36, 40):
+            case = {"kind": "bigtheta", "subseed": bseeds.randrange(2 ** 48), "n": nb}
+            fails, tie, info = bigtheta_case(case["subseed"], nb, want_tie=drv is not None)
+            res.evaluations += 1
+            res.count("n_thetas.%d(C(n,3)>5000)" % nb)
+            if info.get("unobserved"):
+                res.count("bigtheta.triples_unobserved", info["unobserved"])
+            res.nontrivial.add(("bigtheta", nb, tuple(info["sizes"])))
+            for (what, observed, required, sig) in fails:
+                res.fail(what, dict(case, sizes=info["sizes"]), observed, required, signature="C05:" + sig)
+            for (where, line, impl) in tie:
+                tie_rows.append((where, case, line, impl))
+
     rseeds = ctx.subrng("real")
     for t in range(ctx.scale(40, 400, 200)):
         case = {"kind": "realobjects", "subseed": rseeds.randrange(2 ** 48)}
@@ -814,6 +954,11 @@ def run(ctx, res):
 
 
 def replay(ctx, case, res):
+    if case.get("kind") == "bigtheta":
+        fails, _tie, _info = bigtheta_case(case["subseed"], case["n"], want_tie=False)
+        for (what, observed, required, sig) in fails:
+            res.fail(what, case, observed, required, signature="C05:" + sig)
+        return
     if case.get("kind") == "realobjects":
         fails, _tie, _info = real_objects_case(case["subseed"])
         for (what, observed, required, sig) in fails:
